@@ -97,6 +97,7 @@ template<size_t N> struct PtrTable {
     fprintf(stderr, "faults: tracking table full\n"); _exit(3);
   }
   bool del(uintptr_t p, size_t* n = nullptr) {
+    if (p <= 1) return false;         // 0 / 1 are the empty / tombstone marks: munmap(nullptr) or free(nullptr) frees nothing
     size_t h = (p >> 4) * 0x9E3779B97F4A7C15ull % N;
     for (size_t i = 0; i < N; i++) { Ent& e = t[(h + i) % N]; if (e.p == p) { if (n) *n = e.n; e.p = 1; live--; return true; } if (e.p == 0) return false; }
     return false;
@@ -155,9 +156,11 @@ void* __wrap_mmap(void* a, size_t n, int prot, int flags, int fd, off_t off) {
   return p;
 }
 int __wrap_munmap(void* a, size_t n) {
+  int rc = __real_munmap(a, n);
+  if (rc != 0) return rc;              // a failed munmap (e.g. of a null view) releases nothing
   size_t len = 0;
   if (g_maps.del(uintptr_t(a), &len) && len > n) g_maps.add(uintptr_t(a) + n, len - n);   // a prefix was unmapped
-  return __real_munmap(a, n);
+  return rc;
 }
 int __wrap_mprotect(void* a, size_t n, int prot) {
   if (vm_fail(n, "mprotect")) { errno = ENOMEM; return -1; }
